@@ -14,6 +14,7 @@ import EPV.Lemmas.LexicalCast
 import EPV.Lemmas.LexicalRepr
 import EPV.Lemmas.LexicalBinStr
 import EPV.Lemmas.LexicalLang
+import EPV.Lemmas.LexicalStrip
 namespace EPV.C10
 open EPV EPV.LexLemmas
 
@@ -314,18 +315,13 @@ theorem hex_ctor_iff_lexical_spec (s : List Char) :
   rw [hexCtor_eq, collapse_eq_wsCollapse_all s]
   cases XSD.hexLex (XSD.wsCollapse s) <;> rfl
 
-/-- PARTIAL: `HexBinary.is_valid` trims with `strip(' \\t\\n\\r')` instead of collapsing; proved equal to the
-constructor on whitespace-normal strings only.  (No counter-example is known: inner white space fails the
-pattern either way; the general statement needs a lemma relating `strip` and `collapse` that is not proved.) -/
-theorem hex_is_valid_iff_ctor_partial (s : List Char) (hn : Lex.collapse s = s) :
+/-- **is_valid_iff_ctor (xs:hexBinary)**, every string (full strength since phase 3): `HexBinary.validate` trims with
+`strip(' \\t\\n\\r')` where the constructor collapses; the two normalisations agree or both leave white space inside
+(`LexLemmas.pyStrip_or_white`), which the pattern rejects either way. -/
+theorem hex_is_valid_iff_ctor (s : List Char) :
     Lex.hexIsValid s = (Lex.hexCtor s).toBool := by
-  have hnl : '\n' ∉ s := by rw [← hn]; exact collapse_no_nl s
-  have hs : Lex.pyStrip s = s := by
-    have := pyStrip_collapse s
-    rw [hn] at this; exact this
-  unfold Lex.hexIsValid
-  rw [hs, matchHex_eq s hnl, hexCtor_eq, hn]
-  cases XSD.hexLex s <;> rfl
+  rw [hexIsValid_eq, hexCtor_eq]
+  cases XSD.hexLex (Lex.collapse s) <;> rfl
 
 /-- **ctor_iff_lexical (xs:base64Binary)**: the constructor succeeds exactly when the collapsed string is in
 the lexical space of XSD 1.1 §3.3.16 (quads of Base64 characters, optional single spaces, `=` padding only
